@@ -256,11 +256,11 @@ def rxFlowMod (reenter : Sw → Nat → Frame → Sw × List Ev) (s : Sw) (now :
   | none => (s1, [])
 
 def rxPacketOut (reenter : Sw → Nat → Frame → Sw × List Ev) (s : Sw) (po : PacketOut) : Sw × List Ev :=
-  match po.data with
-  | some x => doActs reenter s x po.inPort po.acts
+  match po.buf with                -- the buffered packet first: data only counts when there is no buffer id (switch.py `_rx_packet_out`)
+  | some id => fromBuffer reenter s id po.acts
   | none =>
-    match po.buf with
-    | some id => fromBuffer reenter s id po.acts
+    match po.data with
+    | some x => doActs reenter s x po.inPort po.acts
     | none => (s, [])
 
 def rxMsg (reenter : Sw → Nat → Frame → Sw × List Ev) (s : Sw) (now : Nat) : Msg → Sw × List Ev
